@@ -2,6 +2,7 @@ package characteristic
 
 import (
 	"fmt"
+	"math"
 	"net"
 
 	"github.com/xiam/to"
@@ -124,7 +125,12 @@ func (c *Characteristic) updateValue(value interface{}, conn net.Conn, checkPerm
 	// Value must be within min and max
 	switch c.Format {
 	case FormatFloat:
-		value = c.clampFloat(value.(float64))
+		f := value.(float64)
+		if math.IsNaN(f) || math.IsInf(f, 0) {
+			// NaN and ±Inf are no valid characteristic values (and cannot be encoded as JSON)
+			return
+		}
+		value = c.clampFloat(f)
 	case FormatUInt8, FormatUInt16, FormatUInt32, FormatUInt64, FormatInt32:
 		value = c.clampInt(value.(int))
 	}
